@@ -6,6 +6,20 @@ NOTE = ("bounded scope only (declared lattices/catalogues/depths); exact Fractio
 TECH = "exhaustive small-scope enumeration of the real implementation against an exact reference model (explicit-state explorer written for this task)"
 
 CHECKS = {
+    "C10": ("Every lattice line of {-2..2}^3 x every lattice point (on and off the line, several representatives, int/float) for perpendicular / "
+            "parallel / project / mirror against exact rational closed forms; every plane of {-1,0,1}^4 x every lattice point; 3D lines in all 13 "
+            "lattice directions x all lattice points (perpendicular through points on and off the line, parallel, project, mirror involution); "
+            "single, point-collection and line-collection forms; is_perpendicular / is_parallel / is_cocircular / is_collinear / is_coplanar / "
+            "is_concurrent against exact integer determinants over all lattice tuples incl. more than n arguments and mixed collections; angle "
+            "bisectors in 2D and 3D; base_point / direction / basis_matrix / general_point for every lattice line and plane, also on objects derived "
+            "(transformed, copied) from objects whose properties were read before.",
+            NOTE, TECH, "DESIGN.md section 5, C10"),
+    "C11": ("All 840 ordered 4-tuples of parameters from {inf,-2,-1,0,1,2,3} on every line a+xb of the scope (1D, all independent lattice pairs in 2D, "
+            "a 3D sub-scope) against the exact rational closed form (whose five symmetry identities are asserted exactly), collection and single "
+            "paths, several representatives, invariance under projective generators; pencils of four lines and the from_point form for every "
+            "lattice vertex (origin, coordinate axes, infinity included), pencils of 3D lines, coaxial planes with carrier lines exactly skew to the axis; "
+            "harmonic_set over all parameter triples; NotCollinear / NotConcurrent over all non-degenerate lattice 4-tuples and mixed collections.",
+            NOTE, TECH, "DESIGN.md section 5, C11"),
     "C09": ("dist over all lattice point pairs (2D radius 2, 3D radius 1; several homogeneous representatives, int/float), point x every lattice "
             "line/plane (incident and not; equal coordinate vectors), point x 3D lines in all lattice directions, planes parallel to lines, parallel "
             "planes, exactly one point at infinity, segments, polygons (2D and three embeddings; foot inside / boundary / outside; in and off plane), "
